@@ -53,7 +53,7 @@ def mergeLoop (k : Kind) : TimeRange → List TimeRange → List TimeRange
   | cur, [] => [cur]
   | cur, nxt :: rest =>
     if cur.e ≥ nxt.s then
-      mergeLoop k { cur with e := nxt.e, comments := SortedVec.union cur.comments nxt.comments } rest
+      mergeLoop k { cur with e := max cur.e nxt.e, comments := SortedVec.union cur.comments nxt.comments } rest
     else cur :: mergeLoop k nxt rest
 
 /-- `Schedule::from_ranges` -/
